@@ -90,6 +90,9 @@ def run(ck: Checker, prog: Program, tier: str):
             ck.guard(c02._kernel, ck, prog, k)
         ck.guard(c02._sg, ck, prog)
         ck.guard(c02._registry, ck, prog)
+    from . import c04
+    with ck.borrow(c04, "C01.R4+"):
+        ck.guard(c04._r4, ck, prog, "C04.R4")
     # the settings a caller constructs are the settings the pipeline reads (taper, smoothing, FFT length, method, ...)
     from .c15 import check_delivery
     ck.guard(check_delivery, ck, prog, "C01.R7", ["HvsrTraditionalProcessingSettings", "HvsrTraditionalSingleAzimuthProcessingSettings", "HvsrTraditionalRotDppProcessingSettings", "HvsrAzimuthalProcessingSettings", "HvsrDiffuseFieldProcessingSettings"],
